@@ -441,10 +441,6 @@ class Schema(ResolverMap):
     def register_default_resolver(
         self, typename: str, resolver: Resolver, *, allow_override: bool = False
     ) -> None:
-        super().register_default_resolver(
-            typename, resolver, allow_override=allow_override
-        )
-
         try:
             object_type = self.types[typename]
         except KeyError:
@@ -461,6 +457,12 @@ class Schema(ResolverMap):
                 'Type "%s" already has a default resolver.' % (typename,)
             )
 
+        # Only record accepted registrations: a refused one must not linger
+        # in the resolver map (``clone`` replays it).
+        super().register_default_resolver(
+            typename, resolver, allow_override=allow_override
+        )
+
         object_type.default_resolver = resolver
         # Invalidate validation
         self._is_valid = None
@@ -473,10 +475,6 @@ class Schema(ResolverMap):
         *,
         allow_override: bool = False
     ) -> None:
-        super().register_resolver(
-            typename, fieldname, resolver, allow_override=allow_override
-        )
-
         try:
             object_type = self.types[typename]
         except KeyError:
@@ -489,6 +487,9 @@ class Schema(ResolverMap):
             )
 
         if fieldname == "*":
+            super().register_resolver(
+                typename, fieldname, resolver, allow_override=allow_override
+            )
             return
 
         try:
@@ -509,6 +510,12 @@ class Schema(ResolverMap):
                 % (fieldname, typename)
             )
 
+        # Only record accepted registrations: a refused one must not linger
+        # in the resolver map (``clone`` replays it).
+        super().register_resolver(
+            typename, fieldname, resolver, allow_override=allow_override
+        )
+
         field.resolver = resolver
         # Invalidate validation
         self._is_valid = None
@@ -521,10 +528,6 @@ class Schema(ResolverMap):
         *,
         allow_override: bool = False
     ) -> None:
-        super().register_subscription(
-            typename, fieldname, resolver, allow_override=allow_override
-        )
-
         try:
             object_type = self.types[typename]
         except KeyError:
@@ -553,6 +556,10 @@ class Schema(ResolverMap):
                 'Field "%s" of type "%s" already has a subscription.'
                 % (fieldname, typename)
             )
+
+        super().register_subscription(
+            typename, fieldname, resolver, allow_override=allow_override
+        )
 
         field.subscription_resolver = resolver
         # Invalidate validation
